@@ -274,6 +274,30 @@ theorem C04_mono_retNil (b : Bool) (r : BRes) (h : retNil .strict b = r) : retNi
 theorem C04_prefix_retNil_counterexample :
     retNilPre .strict true = .nil ∧ retNilPre .relaxed true = .err .invalidType := by decide
 
+/-- reference values at the return boundary: when `IsType` answers the same in both directions for the
+    operand (it does for every container the harness builds; the hypothesis is what the harness measures
+    with the real `IsType`), a container that strict mode hands back AS ITSELF is handed back as itself in
+    relaxed and dynamic mode too — so aliasing between the callee's name and the caller's name is the same
+    in every type mode. -/
+theorem C04_mono_retRef (m : Mode) (k : RefKind) (vIsT tIsV : Bool) (hsym : vIsT = true → tIsV = true)
+    (r : RefRes) (h : retRef .strict k vIsT tIsV = r) (hok : ∀ e, r ≠ .err e) : retRef m k vIsT tIsV = r := by
+  subst h
+  cases vIsT with
+  | false => exact absurd rfl (hok .typeMismatch)
+  | true =>
+    have ht : tIsV = true := hsym rfl
+    subst ht
+    cases m <;> cases k <;> rfl
+
+/-- non-vacuity: a matching array is accepted by strict mode and stays the same object in relaxed mode -/
+example : retRef .strict .arr true true = .same ∧ retRef .relaxed .arr true true = .same := by decide
+
+/-- without the symmetry hypothesis the statement is false in the model: a value whose type matches the
+    declared type in one direction only would be accepted by strict mode and rejected by relaxed mode
+    (no such pair of types is known; the harness looks for one on every run) -/
+theorem C04_retRef_asymmetric_counterexample :
+    retRef .strict .map true false = .same ∧ retRef .relaxed .map true false = .err .invalidType := by decide
+
 /-! ## lifting to programs -/
 
 theorem ofRes_ok {r : Res} {o : Operand} (h : ofRes r = .ok o) : resErr r = false := by
